@@ -70,7 +70,7 @@ PAIR_POOLS = (
 _PREFIX_ALPHABET = bytes(b for b in range(256) if b != 1)
 
 
-def make_msg(rng, seq, uid):
+def make_msg(rng, seq, uid, big=False):
     """Bytes that carry ``\\x0134=<seq>\\x01`` as their first tag-34 and are unique per uid."""
     if rng.random() < 0.5:
         prefix = b"8=FIX.4.4\x019=%d\x0135=D" % rng.randint(0, 999)
@@ -80,6 +80,9 @@ def make_msg(rng, seq, uid):
     if rng.random() < 0.05:
         num = "0" * rng.randint(1, 3) + num
     tail = bytes(rng.randrange(256) for _ in range(rng.randint(0, 14)))
+    if big:
+        # several database pages per message: with a small page cache one transaction spills to the file
+        tail += bytes(rng.randrange(256) for _ in range(8)) * rng.choice((0, 10, 80, 200))
     return prefix + b"\x0134=" + num.encode() + b"\x01" + (b"58=u%d|" % uid) + tail
 
 
@@ -99,6 +102,10 @@ def make_config(seed, tier, index, check_id):
         # a run stops at its first violation; the normal-close clause is a sentence of its
         # own in the property, so half of the runs evaluate the normal closes first
         cfg["closes_first"] = rng.random() < 0.50
+        # tuning knob (buggify): 512-byte pages and a one-page cache, so that a transaction of a few messages
+        # already spills dirty pages into the database file before it commits (SQLite's compile-time defaults
+        # differ between builds; the journal must be crash-safe under any of them)
+        cfg["small_cache"] = rng.random() < 0.35
     else:
         cfg["max_ops"] = 40
         cfg["avoid_set_seq_num"] = rng.random() < 0.30
@@ -168,7 +175,7 @@ def generate(cfg):
             else:
                 seq = rng.randint(1, 3)
             uid += 1
-            op = ["persist", hid, d, seq, make_msg(rng, seq, uid).hex()]
+            op = ["persist", hid, d, seq, make_msg(rng, seq, uid, bool(cfg.get("small_cache"))).hex()]
         elif kind == "set":
             hid = rng.choice(have)
             pair = model.handles[hid][0]
@@ -905,6 +912,7 @@ def run_c13(cfg, ops):
 
 # ------------------------------------------------------------------- C08 (crash)
 SIDE_SUFFIXES = ("-journal", "-wal", "-shm")
+TUNING = {"small_cache": False}  # set per run by run_c08 (a forked real-kill child inherits it)
 
 
 class CursorProxy:
@@ -977,7 +985,11 @@ class SqliteShim:
 
     def connect(self, path, *a, **kw):
         self.opened += 1
-        return ConnProxy(REAL_SQLITE3.connect(path, *a, **kw), self._cb, self)
+        c = REAL_SQLITE3.connect(path, *a, **kw)
+        if TUNING["small_cache"] and path != ":memory:":
+            c.execute("PRAGMA page_size=512")  # takes effect only while the file is still empty
+            c.execute("PRAGMA cache_size=1")
+        return ConnProxy(c, self._cb, self)
 
     def __getattr__(self, name):
         return getattr(REAL_SQLITE3, name)
@@ -1164,6 +1176,7 @@ def run_c08(cfg, ops, crash=None, do_real_kill=False):
     res["trace"] = {"ops": ops, "crash": crash}
     h = hashlib.sha256()
     d = make_run_dir()
+    TUNING["small_cache"] = bool(cfg.get("small_cache"))
     try:
         live = os.path.join(d, "j.db")
         rec, contents, kinds, results, model, stopped, abs_states = execute_history_c08(ops, live)
